@@ -119,3 +119,43 @@ theorem Monitor.accepts_of_inv' {σ} (m : Monitor σ) (env : Env) (libs : List (
   rfl
 
 end Updater
+
+namespace Updater
+
+/-- A hypothesis on histories that may refer to the monitor's ghost state at each point:
+    `P g op` must hold for every operation, with `g` the ghost state reached so far. -/
+def Monitor.admissible {σ} (m : Monitor σ) (env : Env) (P : σ → Op → Prop) : σ → View → List (Op × View) → Prop
+  | _, _, [] => True
+  | s, pre, (op, post) :: rest => P s op ∧ m.admissible env P (m.next env s op pre post) post rest
+
+theorem Monitor.run_none_of_inv_adm {σ} (m : Monitor σ) (env : Env) (Inv : World → σ → Prop) (P : σ → Op → Prop)
+    (hstep : ∀ w g op pre, P g op → Inv w g → ShowsDisk w pre →
+      firstFail (m.checks env g op pre (postView env w op)) = none ∧
+      Inv (step env w op).1 (m.next env g op pre (postView env w op))) :
+    ∀ (ops : List Op) (w : World) (g : σ) (k : Nat) (pre : View),
+      m.admissible env P g pre (viewTrace env w ops) → Inv w g → ShowsDisk w pre →
+      m.run env g k pre (viewTrace env w ops) = none := by
+  intro ops
+  induction ops with
+  | nil => intro w g k pre _ _ _; simp [viewTrace, Monitor.run]
+  | cons op ops ih =>
+    intro w g k pre hadm hinv hshow
+    simp only [viewTrace, Monitor.admissible] at hadm
+    have h := hstep w g op pre hadm.1 hinv hshow
+    simp only [viewTrace, Monitor.run]
+    have h1 : firstFail (m.checks env g op pre ((step env w op).1.view (step env w op).2.1 (step env w op).2.2)) = none := h.1
+    rw [h1]
+    exact ih (step env w op).1 _ (k + 1) _ hadm.2 h.2 (showsDisk_view _ _ _)
+
+theorem Monitor.accepts_of_inv_adm {σ} (m : Monitor σ) (env : Env) (libs : List (String × Bytes))
+    (Inv : World → σ → Prop) (P : σ → Op → Prop) (h0 : Inv (World.fresh libs) m.init)
+    (hstep : ∀ w g op pre, P g op → Inv w g → ShowsDisk w pre →
+      firstFail (m.checks env g op pre (postView env w op)) = none ∧
+      Inv (step env w op).1 (m.next env g op pre (postView env w op)))
+    (ops : List Op) (hadm : m.admissible env P m.init View.empty (viewTrace env (World.fresh libs) ops)) :
+    m.accepts env (viewTrace env (World.fresh libs) ops) = true := by
+  unfold Monitor.accepts
+  rw [Monitor.run_none_of_inv_adm m env Inv P hstep ops _ _ 0 View.empty hadm h0 (showsDisk_empty libs)]
+  rfl
+
+end Updater
